@@ -434,7 +434,7 @@ def functionalise_tie(run, rnd, quick, batch=0):
                     fresh_for_targets=True, nested_def=False, only={'if', 'while', 'for', 'break', 'continue', 'return', 'expr', 'aug', 'tuple'})
     # explicit raise and try / except / else around and inside the rewritten statements (no finally clauses: the CFG does not
     # wire raise to finally, a documented limit of the analyses, so the closure conditions need not hold there)
-    o3 = progs.Opts(loop_else=False, reads='safe', with_=False, finally_=False, except_as=False, max_stmts=14, fresh_for_targets=True,
+    o3 = progs.Opts(loop_else=False, reads='safe', with_=True, finally_=False, except_as=False, max_stmts=14, fresh_for_targets=True,
                     nested_def=False)
     srcs = [progs.gen_function(rnd, rnd.choice([o1, o2, o3])) for _ in range(n)]
     cdir = os.path.join(vlib.ROOT, 'corpus', 'C01fn')
